@@ -90,7 +90,7 @@ def json_equal(a, b):
 class C19:
     prop = "C19"
     level = "exploration"
-    budgets = {"quick": 260, "thorough": 10000}
+    budgets = {"quick": 400, "thorough": 10000}
     scenario_timeout = 900
     warm_refinement = True
 
